@@ -130,6 +130,7 @@ def _pv_cached(S_):
     h, n, p, node, v, key, cache, table, r, vid = _pv_common(S_)
     hit = h.dhas(cache, key)
     return Implies(hit, And(
+        S_.is_fresh(vid, "VariableId"),
         n.f(vid, "_vid") == h.dget(cache, key), n.f(vid, "_name") == h.f(node, "name"),
         n.f(vid, "_original_name") == h.f(node, "original_name"),
         n.f(r, "VariableResponse.__process_children") == VFalse,
@@ -146,6 +147,7 @@ def _pv_new(S_):
     var = n.dget(table, new_id)
     limit = cfg_of(h, p, "max_string_length")
     return Implies(Not(hit), And(
+        S_.is_fresh(vid, "VariableId"),
         n.f(vid, "_vid") == new_id, n.f(vid, "_name") == h.f(node, "name"),
         n.f(vid, "_original_name") == h.f(node, "original_name"),
         n.f(r, "VariableResponse.__process_children") == VTrue,
@@ -169,8 +171,11 @@ c.ens("new-object-recorded-once-bounded", _pv_new, props=["C07", "C02", "C05"])
 # ---------------------------------------------------------------- find_children_for_parent
 def nodes_result_ok(S_, r, parent):
     """The result is a new list of new root-level nodes attached to `parent` (element typing declared)."""
+    k = z3.Int("k!nro")
     return And(S_.is_fresh(r, "list") if not isinstance(r, bool) else True, S_.new.llen(r) >= 0,
-               S_.elems(r, OBJ("Node")))
+               S_.elems(r, OBJ("Node")),
+               # every node in the result was created by this call
+               z3.ForAll([k], Implies(And(k >= 0, k < S_.new.llen(r)), S_.created_during_call(S_.new.lget(r, k)))))
 
 
 c = contract(VP, "find_children_for_parent", ["C06", "C02"])
@@ -287,3 +292,96 @@ def _addch_inv(L):
 
 c.loop("loop#1", invariant=_addch_inv,
        modifies=lambda L: [("field*", "_depth"), ("list", L.at_entry().f(L.local("self"), "_children"))])
+
+
+# ---------------------------------------------------------------- VariableSetProcessor.check_var_count
+c = contract(VSP, "VariableSetProcessor.check_var_count", ["C05"])
+c.param("self", OBJ("VariableSetProcessor"))
+c.result = BOOL
+c.modifies = lambda S_: []
+c.ens("budget-test", lambda S_: bv(S_.result) == (S_.old.dlen(cache_of(S_.old, S_.a.self)) <= cfg_of(S_.old, S_.a.self, "max_variables")))
+
+# ---------------------------------------------------------------- VariableSetProcessor.search_function
+c = contract(VSP, "VariableSetProcessor.search_function", ["C05", "C06", "C07"])
+c.param("self", OBJ("VariableSetProcessor")).param("node", OBJ("Node"))
+c.req("node-parent", lambda S_: S_.I.assume_shape(S_.old.f(S_.a.node, "_parent"), OBJ("ParentNode", inv=False)) or z3.BoolVal(True))
+c.req("string-limit-not-negative", lambda S_: cfg_of(S_.old, S_.a.self, "max_string_length") >= 0)
+c.result = BOOL
+c.host_ops_exc_base = "Exception"
+c.logged = "search_function"
+c.modifies = lambda S_: [("dict", lookup_of(S_.old, S_.a.self)), ("dict", cache_of(S_.old, S_.a.self)),
+                         ("list*",), ("field*", "_depth")]
+# C06: whatever the value, processing one node never fails (a failing value costs only its own children)
+c.sig_props = ["C06"]
+
+
+def _sf_budget(S_):
+    """C05: the budget is tested before each node: with the budget spent the node is not recorded and the
+    search stops; a node adds at most one entry."""
+    h, n = S_.old, S_.new
+    me = S_.a.self
+    size0, size1 = h.dlen(cache_of(h, me)), n.dlen(cache_of(h, me))
+    over = size0 > cfg_of(h, me, "max_variables")
+    return And(Implies(over, And(Not(bv(S_.result)), size1 == size0,
+                                 n.dhas_arr(lookup_of(h, me)) == h.dhas_arr(lookup_of(h, me)))),
+               Implies(Not(over), bv(S_.result)),
+               size1 >= size0, size1 <= size0 + 1)
+
+
+c.ens("budget-checked-before-each-node", _sf_budget, props=["C05"])
+
+
+def _sf_log(S_, kind):
+    """C07: a cached (already recorded) object's children are not processed again; children found for a new
+    object are attached one level below the node."""
+    if kind != "return":
+        return []
+    pv = S_.calls("process_variable")
+    pc_ = S_.calls("process_child_nodes")
+    ac = S_.calls("add_children")
+    add = S_.calls("add_child")
+    out = [("one-reference-per-node", "LOG", z3.BoolVal(len(add) == len(pv) and len(pv) <= 1), ["C07", "C02"])]
+    if pv and not pv[0].raised:
+        r = pv[0].result
+        proc = bv(S_.new.f(r, "VariableResponse.__process_children"))
+        out.append(("children-only-for-new-objects", "LOG",
+                    proc if pc_ else Not(proc), ["C07"]))
+        if add:
+            out.append(("parent-gets-this-nodes-reference", "LOG",
+                        And(add[0].args[0] == S_.old.f(S_.a.node, "_parent"),
+                            add[0].args[1] == S_.new.f(r, "VariableResponse.__variable_id")), ["C07", "C02"]))
+    if pc_ and not pc_[0].raised:
+        out.append(("children-depth-from-node", "LOG",
+                    And(pc_[0].args[3] == S_.old.f(S_.a.node, "_depth"), z3.BoolVal(len(ac) == 1)), ["C05"]))
+    return out
+
+
+c.exit_check(_sf_log)
+
+
+# ---------------------------------------------------------------- VariableSetProcessor.process_variable
+c = contract(VSP, "VariableSetProcessor.process_variable", ["C06", "C07", "C02"])
+c.param("self", OBJ("VariableSetProcessor")).param("name", VAL).param("value", ANY)
+c.req("string-limit-not-negative", lambda S_: cfg_of(S_.old, S_.a.self, "max_string_length") >= 0)
+c.result = TUPLE(VAL, VAL)
+c.host_ops_exc_base = "Exception"
+c.logged = "VariableSetProcessor.process_variable"
+c.modifies = lambda S_: [("all",)]
+c.sig_props = ["C06"]
+
+
+def _vspv_post(S_):
+    """The returned VariableId names the value's entry: the id recorded for this object's identity."""
+    h, n = S_.old, S_.new
+    me = S_.a.self
+    vid = n.lget(S_.result, 0)
+    key = Val.VStr(IdStr(S_.a.value))
+    cache = cache_of(h, me)
+    return And(S_.is_fresh(vid, "VariableId"), n.f(vid, "_name") == S_.a.name,
+               Implies(h.dhas(cache, key), n.f(vid, "_vid") == h.dget(cache, key)),
+               Val.is_VStr(n.lget(S_.result, 1)))
+
+
+c.ens("reference-to-the-values-entry", _vspv_post, props=["C07", "C02"])
+
+
